@@ -368,6 +368,16 @@ func runC12(c *core.Ctx) {
 					c.Violate("data.ReadI2PString", "decode-differs", sh, content, fmt.Sprint(err))
 				}
 				c.Nontrivial([]byte("string"), content)
+				// the caller owns the string it was handed: it overwrites it and appends to it; the same
+				// content encodes correctly again (also: a second string built meanwhile is its own)
+				keep := append([]byte{}, s...)
+				for j := range s {
+					s[j] ^= 0x5C
+				}
+				_ = append(s, 0x5C, 0x5C)
+				if s2, err := ctor.fn(string(content)); err != nil || !bytes.Equal(s2, keep) {
+					c.Violate(ctor.site, "encoding-differs-after-an-earlier-result-was-overwritten", sh, content, fmt.Sprintf("the same %d-byte content now encodes as %x.. (%v)", n, head([]byte(s2), 12), err))
+				}
 			} else if err == nil {
 				c.Violate(ctor.site, "out-of-domain-accepted", sh, content, fmt.Sprintf("%d bytes accepted, encoded length %d", n, len(s)))
 			}
